@@ -214,6 +214,7 @@ type w1World struct {
 	shutdownRet  int64
 	pendingAsync int
 	startUnix    int64
+	endPhaseSeq  int64 // everything closed after this point was closed by the harness at the end
 	csr          bool // ConnectReply.ClientSideRefresh
 	preRun       func(n *Node) // cluster world: install shared broker / controller before Run
 	seqSrc       *int64       // cluster world: one event counter for all nodes
@@ -1047,6 +1048,7 @@ func w1Run(s *simrt.Sim, script any, prop string) {
 	}
 	s.Sleep(settle)
 	w.checkSettled()
+	w.endPhaseSeq = w.next()
 	// end: close every remaining connection, settle, check that nothing survives
 	if w.shutdownDone {
 		w.checkAfterShutdown()
@@ -1290,6 +1292,18 @@ func w1Gen(c *simrt.Choice, prop, tier string) any {
 			ops = append(ops, op)
 		}
 		sc.Admins = append(sc.Admins, ops)
+	}
+	if prop == "C37" && cfg.QueueMax > 0 && c.Intn(2) == 0 {
+		// slow-consumer scenario: a subscribed peer stops reading while publications flow
+		ch0 := sc.Channels[0]
+		slow := w1Client{Proto: []string{"json", "protobuf"}[c.Intn(2)], User: "slow", Ops: []w1Op{{K: "connect"}, {K: "sub", Ch: ch0}, {K: "sleep", DelayUs: 1000}, {K: "stall"}, {K: "sleep", DelayUs: 3000000}}}
+		sc.Clients = append(sc.Clients, slow)
+		var ops []w1Op
+		ops = append(ops, w1Op{K: "sleep", DelayUs: 10000})
+		for i := 0; i < 30+c.Intn(30); i++ {
+			ops = append(ops, w1Op{K: "pub", Ch: ch0})
+		}
+		sc.Pubs = append(sc.Pubs, ops)
 	}
 	if prop == "C36" {
 		sc.Admins = nil
